@@ -484,6 +484,11 @@ func propC18(j *Job) {
 			}
 		}
 	}
+	for _, mode := range modes {
+		for _, inb := range []bool{false, true} {
+			j.Explore(fmt.Sprintf("PPI/%s/inbound%v", mode.Name, inb), defaultPPIScenario(withBase(mode.A, 228, 3, 4000), withBase(mode.B, 228, 4, 4000), inb), Budget{}, nil)
+		}
+	}
 	for mi, mode := range modes {
 		for _, n := range []int{2, 3} {
 			if !j.Thorough() && mi > 0 && n == 3 {
@@ -585,6 +590,50 @@ func twoReadersDeadlineScenario(a, b epCfg, nReaders int) *Scenario {
 			m.Observe("back=%d", len(back))
 			m.CloseBoth()
 			m.Join(ts...)
+		},
+		Final: func(m *Sim, x *Exec) { generalVerdicts(m, x, true) },
+	}
+}
+
+// defaultPPIScenario: Stream.Write (the io.Writer entry point) sends with the payload type the
+// stream was opened with, whatever traffic the stream has received in the meantime.
+func defaultPPIScenario(a, b epCfg, inboundFirst bool) *Scenario {
+	return &Scenario{
+		Name:    "defaultppi",
+		Horizon: 60 * time.Second,
+		Body: func(m *Sim) {
+			if !m.Connect(a, b) {
+				m.Failf("connect", "handshake failed")
+				m.closeFailedTransports()
+				m.CloseBoth()
+				return
+			}
+			sa, _ := m.As[0].OpenStream(1, PayloadTypeWebRTCString)
+			sb, _ := m.As[1].OpenStream(1, PayloadTypeWebRTCBinary)
+			m.streamsSeen = append(m.streamsSeen, sa, sb)
+			buf := make([]byte, 200)
+			if inboundFirst {
+				if _, err := sb.WriteSCTP(payload(1, 0, 20), PayloadTypeWebRTCBinary); err != nil {
+					m.Failf("api.write", "write: %v", err)
+				}
+				if _, _, err := sa.ReadSCTP(buf); err != nil {
+					m.Failf("api.read", "read: %v", err)
+				}
+			}
+			for i := 1; i <= 2; i++ {
+				msg := payload(1, i, 30)
+				if n, err := sa.Write(msg); err != nil || n != len(msg) {
+					m.Failf("api.write", "Write: n=%d err=%v", n, err)
+				}
+				n, ppi, err := sb.ReadSCTP(buf)
+				if err != nil || string(buf[:n]) != string(msg) {
+					m.Failf("api.delivery", "message %d written with Write was not delivered intact (n=%d err=%v)", i, n, err)
+				} else if ppi != PayloadTypeWebRTCString {
+					m.Failf("api.ppi", "message %d written with Write on a stream opened with payload type %d arrived with payload type %d (inbound data before the write: %v)", i, PayloadTypeWebRTCString, ppi, inboundFirst)
+				}
+			}
+			m.Observe("ok")
+			m.CloseBoth()
 		},
 		Final: func(m *Sim, x *Exec) { generalVerdicts(m, x, true) },
 	}
